@@ -100,8 +100,44 @@ class SInt:
         return "SInt(%s)" % (self.e if len(str(self.e)) < 60 else "...")
 
 
+class SFloat:
+    """Python float = IEEE-754 binary64 (z3 FloatingPoint sort Float64)."""
+    __slots__ = ("e",)
+
+    def __init__(self, e):
+        self.e = e
+
+    def real(self):
+        return z3.fpToReal(self.e)
+
+    def finite(self):
+        return z3.And(z3.Not(z3.fpIsNaN(self.e)), z3.Not(z3.fpIsInf(self.e)))
+
+
+def float_cmp(op, a, b):
+    """Python comparison semantics float<->float and float<->int (exact, no rounding of the int)."""
+    if isinstance(a, SFloat) and isinstance(b, (SFloat, float)):
+        y = b.e if isinstance(b, SFloat) else z3.FPVal(b, z3.Float64())
+        x = a.e
+        return {"==": z3.fpEQ(x, y), "!=": z3.Not(z3.fpEQ(x, y)), "<": z3.fpLT(x, y), "<=": z3.fpLEQ(x, y),
+                ">": z3.fpGT(x, y), ">=": z3.fpGEQ(x, y)}[op]
+    if isinstance(a, SFloat):
+        i = z3.ToReal(to_int_expr(b))
+        x = a.e
+        nan, pinf, ninf = z3.fpIsNaN(x), z3.And(z3.fpIsInf(x), z3.fpIsPositive(x)), z3.And(z3.fpIsInf(x), z3.fpIsNegative(x))
+        r = a.real()
+        fin = {"==": r == i, "!=": r != i, "<": r < i, "<=": r <= i, ">": r > i, ">=": r >= i}[op]
+        at_pinf = {"==": False, "!=": True, "<": False, "<=": False, ">": True, ">=": True}[op]
+        at_ninf = {"==": False, "!=": True, "<": True, "<=": True, ">": False, ">=": False}[op]
+        at_nan = op == "!="
+        return z3.If(nan, z3.BoolVal(at_nan), z3.If(pinf, z3.BoolVal(at_pinf), z3.If(ninf, z3.BoolVal(at_ninf), fin)))
+    # int <op> float  ==  float <flipped op> int
+    flip = {"==": "==", "!=": "!=", "<": ">", "<=": ">=", ">": "<", ">=": "<="}[op]
+    return float_cmp(flip, b, a)
+
+
 def is_sym(v):
-    if isinstance(v, (SBytes, SInt)) or isinstance(v, z3.ExprRef):
+    if isinstance(v, (SBytes, SInt, SFloat)) or isinstance(v, z3.ExprRef):
         return True
     if isinstance(v, (tuple, list)):
         return any(is_sym(x) for x in v)
@@ -483,6 +519,13 @@ def m_int(it, args, kw):
         v = args[0]
         if isinstance(v, SInt):
             return v
+        if isinstance(v, SFloat):
+            if it.ctx.branch(z3.fpIsNaN(v.e)):
+                raise Raised(ValueError("cannot convert float NaN to integer"))
+            if it.ctx.branch(z3.fpIsInf(v.e)):
+                raise Raised(OverflowError("cannot convert float infinity to integer"))
+            r = v.real()
+            return SInt(z3.If(r >= 0, z3.ToInt(r), -z3.ToInt(-r)))    # truncation toward zero
         raise Unsupported("int(sym)")
     s, base = args[0], args[1] if len(args) > 1 else kw.get("base")
     if base != 16:
@@ -544,6 +587,8 @@ def m_isinstance(it, args, kw):
         return (str if v.is_str else bytes) in ts or object in ts
     if isinstance(v, SInt):
         return int in ts or object in ts
+    if isinstance(v, SFloat):
+        return float in ts or object in ts
     if z3.is_bool(v):
         return bool in ts or int in ts or object in ts
     return isinstance(v, t)
@@ -749,6 +794,8 @@ class Interp:
             return len(v) > 0
         if isinstance(v, SInt):
             return self.ctx.branch(int_cmp("!=", v, 0))
+        if isinstance(v, SFloat):
+            return self.ctx.branch(z3.Not(z3.fpIsZero(v.e)))
         if is_sym(v):
             if isinstance(v, (tuple, list, dict)):
                 return len(v) > 0
@@ -1280,6 +1327,11 @@ class Frame:
             return res if isinstance(op, ast.In) else z3.Not(res)
         if isinstance(l, (SInt, int)) and isinstance(r, (SInt, int)) and not isinstance(l, bool) and not isinstance(r, bool):
             return int_cmp({ast.Eq: "==", ast.NotEq: "!=", ast.Lt: "<", ast.LtE: "<=", ast.Gt: ">", ast.GtE: ">="}[type(op)], l, r)
+        if (isinstance(l, SFloat) and isinstance(r, (SFloat, SInt, int, float))) or \
+                (isinstance(r, SFloat) and isinstance(l, (SInt, int, float))):
+            if isinstance(l, bool) or isinstance(r, bool):
+                raise Unsupported("float/bool compare")
+            return float_cmp({ast.Eq: "==", ast.NotEq: "!=", ast.Lt: "<", ast.LtE: "<=", ast.Gt: ">", ast.GtE: ">="}[type(op)], l, r)
         if isinstance(l, (SBytes, bytes, str)) and isinstance(r, (SBytes, bytes, str)):
             if isinstance(op, ast.Eq):
                 return seq_eq(l, r)
@@ -1309,6 +1361,19 @@ def model_value(m, v):
         return bs.decode("latin1") if v.is_str else bs
     if isinstance(v, SInt):
         return m.eval(v.e, model_completion=True).as_long()
+    if isinstance(v, SFloat):
+        bits = m.eval(z3.fpToIEEEBV(v.e), model_completion=True)
+        fv = m.eval(v.e, model_completion=True)
+        if z3.is_fp_value(fv):
+            if fv.isNaN():
+                return float("nan")
+            if fv.isInf():
+                return float("-inf") if fv.isNegative() else float("inf")
+            sign = -1.0 if fv.isNegative() else 1.0
+            if fv.isZero():
+                return sign * 0.0
+            return float(struct.unpack(">d", struct.pack(">Q", (int(fv.sign()) << 63) | (fv.exponent_as_long(True) << 52) | fv.significand_as_long()))[0])
+        raise Unsupported("no float model value")
     if z3.is_bool(v):
         return z3.is_true(m.eval(v, model_completion=True))
     if z3.is_bv(v) or z3.is_int(v):
